@@ -1,0 +1,8 @@
+//go:build !verif
+
+// Package verifhook provides named hook points for verification builds (build tag
+// "verif"). Without the tag Point is an empty function that the compiler inlines away.
+package verifhook
+
+// Point does nothing in regular builds.
+func Point(string) {}
